@@ -35,7 +35,9 @@ Unmodified == ~T.raised =>
                  /\ T.payload_ok
                  /\ \A k \in 1..NOut : LET f == T.out[k][1]  i == T.out[k][2] IN
                        /\ T.rk[k] = T.inputs[f][i]
-                       /\ T.pay[k] = 1000 * f + i
+                       \* (nullpay: every 5th row of a Parquet input holds a NULL in the integer payload column: recorded as -2;
+                       \*  an integer handed back as a float by the row-dictionary merge is recorded as -3)
+                       /\ T.pay[k] = (IF T.nullpay /\ i % 5 = 0 THEN -2 ELSE 1000 * f + i)
                        /\ T.txt[k] = "t" \o ToString(f) \o "/" \o ToString(i)
 Clauses == LET valid == ValidIds IN
            [Shape            |-> Shape,
